@@ -425,3 +425,124 @@ pub fn replay(ctx: &Ctx, c: &Value) {
         absorb_case(ctx, &mut w, u("mode"), b("dispatched_one_level_down"), u("outer_mode"), b("dispatcher_has_reply_entry_point"), b("reply_handler_fails"));
     }
 }
+
+// ---------------------------------------------------------------------------------------------
+// A chain whose Api accepts several spellings of an address (here: any letter case) and returns
+// the normal one. What the chain records and reports is the address the Api returned, never the
+// spelling a message happened to use.
+
+struct NormApi(MockApi);
+impl cosmwasm_std::Api for NormApi {
+    fn addr_validate(&self, human: &str) -> StdResult<Addr> {
+        self.0.addr_validate(&human.to_lowercase())
+    }
+    fn addr_canonicalize(&self, human: &str) -> StdResult<cosmwasm_std::CanonicalAddr> {
+        self.0.addr_canonicalize(&human.to_lowercase())
+    }
+    fn addr_humanize(&self, canonical: &cosmwasm_std::CanonicalAddr) -> StdResult<Addr> {
+        self.0.addr_humanize(canonical)
+    }
+    fn secp256k1_verify(&self, a: &[u8], b: &[u8], c: &[u8]) -> Result<bool, cosmwasm_std::VerificationError> {
+        self.0.secp256k1_verify(a, b, c)
+    }
+    fn secp256k1_recover_pubkey(&self, a: &[u8], b: &[u8], c: u8) -> Result<Vec<u8>, cosmwasm_std::RecoverPubkeyError> {
+        self.0.secp256k1_recover_pubkey(a, b, c)
+    }
+    fn ed25519_verify(&self, a: &[u8], b: &[u8], c: &[u8]) -> Result<bool, cosmwasm_std::VerificationError> {
+        self.0.ed25519_verify(a, b, c)
+    }
+    fn ed25519_batch_verify(&self, a: &[&[u8]], b: &[&[u8]], c: &[&[u8]]) -> Result<bool, cosmwasm_std::VerificationError> {
+        self.0.ed25519_batch_verify(a, b, c)
+    }
+    fn debug(&self, _: &str) {}
+}
+
+type NApp = App<BankKeeper, NormApi, SnapStorage>;
+
+fn norm_world() -> (NApp, Addr, Addr, Addr, Addr, u64) {
+    let api = MockApi::default();
+    let (user, other) = (api.addr_make("user"), api.addr_make("other"));
+    let mut app: NApp = AppBuilder::new().with_api(NormApi(MockApi::default())).with_storage(SnapStorage::new()).build(|router, _, storage| {
+        router.bank.init_balance(storage, &user, vec![coin(100, "x")]).unwrap();
+    });
+    let code = app.store_code(with_reply());
+    let p = app.instantiate_contract(code, user.clone(), &Empty {}, &[coin(5, "x")], "p", Some(user.to_string())).unwrap();
+    let callee = app.instantiate_contract(code, user.clone(), &Empty {}, &[], "callee", Some(user.to_string())).unwrap();
+    (app, user, other, p, callee, code)
+}
+
+/// C04: every `_contract_address` an event carries is the contract's address, whatever spelling the
+/// message that reached the contract used (top level, and as a sub-message with reply).
+pub fn normalising_api_events_stage(ctx: &Ctx) -> u64 {
+    let mut n = 0;
+    for nested in [false, true] {
+        let (mut app, user, _other, p, callee, _) = norm_world();
+        let known = [p.to_string(), callee.to_string()];
+        SCRIPT.with(|s| *s.borrow_mut() = Script { kind: 0, mode: 3, callee: callee.to_string().to_uppercase(), dispatcher: p.to_string(), ..Script::default() });
+        REPLIES.with(|r| r.borrow_mut().clear());
+        let cj = json!({"engine": "envelope", "stage": "normalising-api-events", "callee_named_in_upper_case": true, "as_sub_message_with_reply": nested});
+        let res = catch(|| {
+            if nested {
+                app.execute(user.clone(), WasmMsg::Execute { contract_addr: p.to_string().to_uppercase(), msg: to_json_binary(&EMsg { op: 0 }).unwrap(), funds: vec![] }.into())
+            } else {
+                app.execute(user.clone(), WasmMsg::Execute { contract_addr: callee.to_string().to_uppercase(), msg: to_json_binary(&EMsg { op: 1 }).unwrap(), funds: vec![] }.into())
+            }
+        });
+        let replies = REPLIES.with(|r| std::mem::take(&mut *r.borrow_mut()));
+        n += 1;
+        match res {
+            Ok(Ok(resp)) => {
+                let mut all_events: Vec<cosmwasm_std::Event> = resp.events.clone();
+                for (_, r) in &replies {
+                    if let SubMsgResult::Ok(ok) = &r.result {
+                        all_events.extend(ok.events.iter().cloned());
+                    }
+                }
+                for ev in &all_events {
+                    for a in ev.attributes.iter().filter(|a| a.key == "_contract_address") {
+                        if !known.contains(&a.value) {
+                            ctx.violation("c04:event-carries-a-spelling-that-is-not-the-contract-address", json!({"case": cj, "event": ev.ty, "value": a.value, "contract_addresses": known}));
+                        }
+                    }
+                }
+                if !all_events.iter().any(|e| e.ty == "execute") {
+                    ctx.violation("c04:normalising-api:no-execute-event", json!({"case": cj}));
+                }
+            }
+            other => ctx.violation("c04:normalising-api:call-failed", json!({"case": cj, "result": format!("{:?}", other.map(|r| r.map(|_| "Ok").map_err(|e| format!("{:#}", e))))})),
+        }
+    }
+    n
+}
+
+/// C12: an admin change names the new admin in another spelling the Api accepts: the admin recorded
+/// and reported is the address; that address governs the next attempt, and an account merely
+/// spelled like the message text does not.
+pub fn normalising_api_admin_stage(ctx: &Ctx) -> u64 {
+    let mut n = 0;
+    for attempt_by_the_rightful_admin in [true, false] {
+        let (mut app, user, other, p, _callee, code) = norm_world();
+        let cj = json!({"engine": "envelope", "stage": "normalising-api-admin", "new_admin_named_in_upper_case": true, "next_attempt_by": if attempt_by_the_rightful_admin { "the new admin (normal spelling)" } else { "an account spelled like the message text" }});
+        n += 1;
+        let upper = other.to_string().to_uppercase();
+        match catch(|| app.execute(user.clone(), WasmMsg::UpdateAdmin { contract_addr: p.to_string(), admin: upper.clone() }.into())) {
+            Ok(Ok(_)) => {}
+            other_r => {
+                ctx.violation("c12:normalising-api:admin-change-by-the-admin-failed", json!({"case": cj, "result": format!("{:?}", other_r.map(|r| r.map(|_| "Ok").map_err(|e| format!("{:#}", e))))}));
+                continue;
+            }
+        }
+        let recorded = app.contract_data(&p).ok().and_then(|d| d.admin).map(|a| a.into_string());
+        let reported = app.wrap().query_wasm_contract_info(p.to_string()).ok().and_then(|i| i.admin).map(|a| a.into_string());
+        if recorded.as_deref() != Some(other.as_str()) || reported.as_deref() != Some(other.as_str()) {
+            ctx.violation("c12:State:normalising-api", json!({"case": cj, "recorded_admin": recorded, "reported_admin": reported, "the_address_the_api_returned": other.as_str()}));
+        }
+        let sender = if attempt_by_the_rightful_admin { other.clone() } else { Addr::unchecked(upper.clone()) };
+        let r = catch(|| app.migrate_contract(sender.clone(), p.clone(), &EMsg { op: 2 }, code));
+        let ok = matches!(r, Ok(Ok(_)));
+        if ok != attempt_by_the_rightful_admin {
+            ctx.violation("c12:Outcome:normalising-api", json!({"case": cj, "migrate_by": sender.as_str(), "succeeded": ok, "expected_to_succeed": attempt_by_the_rightful_admin}));
+        }
+    }
+    n
+}
